@@ -558,7 +558,7 @@ class Translator:
         for p in e.values:
             if isinstance(p, ast.Constant) and isinstance(p.value, str):
                 parts.append(Val(coq_str(p.value), STR))
-            elif isinstance(p, ast.FormattedValue) and p.conversion == -1 and p.format_spec is None:
+            elif isinstance(p, ast.FormattedValue) and p.conversion in (-1, 115) and p.format_spec is None:
                 v = self.tr(p.value, env)
                 if v.ty == STR:
                     parts.append(v)
@@ -568,6 +568,8 @@ class Translator:
                     parts.append(self.lift([v], lambda c: Val(f"(aval_str {c[0]})", STR)))
                 elif v.ty in (FLOAT, INTSTR):
                     parts.append(Val(v.code, STR, v.eff))
+                elif v.ty in (ASTT, NODE):
+                    parts.append(self.lift([v], lambda c: Val(f"(node_str {c[0]})", STR)))
                 else:
                     fail(e, f"f-string over {v.ty}")
             else:
@@ -1379,6 +1381,9 @@ class Translator:
         v = self.obj(self.tr(e.value, env))
         if v.ty == NDATA and isinstance(e.slice, ast.Slice):
             v = self.coerce(v, STR, e)
+        if v.ty == STR and isinstance(e.slice, ast.Slice) and e.slice.step is None and e.slice.lower is None \
+                and e.slice.upper is not None and ast.unparse(e.slice.upper) == "-1":
+            return self.lift([v], lambda c: Val(f"(py_str_drop_last {c[0]})", STR))      # s[:-1] (one ASCII character)
         if v.ty == STR and isinstance(e.slice, ast.Slice) and e.slice.step is None and e.slice.upper is None \
                 and isinstance(e.slice.lower, ast.Constant) and isinstance(e.slice.lower.value, int) and e.slice.lower.value >= 0:
             n = e.slice.lower.value
@@ -2411,7 +2416,7 @@ UNITS = [
     {"name": "fm", "imports": "",
      "files": [("models/feature_model.py", {
          "Relation": ["is_mandatory", "is_optional", "is_or", "is_alternative", "is_mutex", "is_cardinal", "is_group",
-                      "__eq__", "_sort_key", "__lt__"],
+                      "__eq__", "_sort_key", "__lt__", "__str__"],
          "Feature": ["__eq__", "__str__", "__lt__", "is_empty", "get_attributes", "get_relations", "get_parent", "get_children", "is_root", "is_mandatory",
                      "is_optional", "is_or_group", "is_alternative_group", "is_mutex_group", "is_cardinality_group",
                      "is_group", "is_multiple_group_decomposition", "is_leaf", "is_boolean", "is_numerical",
@@ -2421,7 +2426,7 @@ UNITS = [
          "Constraint": ["get_features", "is_logical_constraint", "is_arithmetic_constraint",
                         "is_aggregation_constraint", "is_single_feature_constraint", "is_simple_constraint",
                         "is_complex_constraint", "is_requires_constraint", "is_excludes_constraint",
-                        "is_pseudocomplex_constraint", "is_strictcomplex_constraint", "__eq__", "__lt__"],
+                        "is_pseudocomplex_constraint", "is_strictcomplex_constraint", "__eq__", "__lt__", "__str__"],
          "FeatureModel": ["get_relations", "get_features", "get_boolean_features", "get_numerical_features",
                           "get_string_features", "get_constraints", "get_mandatory_features",
                           "get_optional_features", "get_alternative_group_features", "get_or_group_features",
